@@ -43,7 +43,7 @@ class Layout:
     """how tokens become text; every choice keeps the token sequence unchanged"""
 
     def __init__(self, eol="\n", indent="    ", sep=" ", bom=False, trailing_newline=True, comment=None, blank=None,
-                 ff=False, join=0, brk=False, semi=False, trail="", tight=False):
+                 ff=False, join=0, brk=False, semi=False, trail="", tight=False, brk_ws="      ", join_ws="   "):
         self.eol, self.indent, self.sep, self.bom, self.trailing_newline = eol, indent, sep, bom, trailing_newline
         self.comment, self.blank = comment, blank
         self.ff = ff            # a form feed before the first token of top-level lines
@@ -52,6 +52,8 @@ class Layout:
         self.semi = semi        # consecutive simple statements joined with ';'
         self.trail = trail      # trailing whitespace before each line end
         self.tight = tight      # no space between tokens unless leaving it out would change the token sequence
+        self.brk_ws = brk_ws    # what follows the line break after an opening bracket ("\n" in it = one more line end)
+        self.join_ws = join_ws  # leading whitespace of the line after a backslash join
 
 
 CANON = Layout()
@@ -140,14 +142,14 @@ def realize(case, layout=CANON, names=None):
             if s in OPEN:
                 nest += 1
                 if layout.brk:
-                    emit(layout.eol + "      ")
+                    emit(layout.eol + layout.brk_ws.replace("\n", layout.eol))
             elif s in CLOSE:
                 nest -= 1
             elif layout.join and nest == 0 and count % layout.join == 0:
                 # a join is only possible when another token follows on this logical line
                 nxt = next((x for x in items[idx + 1:] if x["i"] in ("t", "NL")), None)
                 if nxt and nxt["i"] == "t":
-                    emit(" \\" + layout.eol + "   ")
+                    emit(" \\" + layout.eol + layout.join_ws)
         elif kind == "B":
             pendingB.append(tuple(it["p"]))
         elif kind == "E":
